@@ -261,134 +261,175 @@ def controls(cases):
     return pos, neg
 
 
+class Run:
+    """Accumulates evidence over the batches of one run."""
+
+    def __init__(self, kernel):
+        from collections import Counter
+        self.kernel, self.agg, self.stats = kernel, Agg(), Counter()
+        self.g_states = self.g_gen = self.t_states = self.t_gen = 0
+        self.wall = {"model_check_and_generate": 0.0, "implementation": 0.0, "trace_validation": 0.0}
+        self.n_traces = self.n_events = self.drift = self.ood = self.oodw = self.n_cases = self.nontriv = 0
+        self.chunk_no = 0
+
+    def generate(self, shapes, extra):
+        """Model-check GF2Gen on all matrices of `shapes` and on `extra`; returns the emitted cases (sorted)."""
+        extra_tla = "{" + ", ".join(f"[m |-> {x['m']}, n |-> {x['n']}, A |-> {tla_mat(x['A'])}]" for x in extra) + "}"
+        shapes_tla = "{" + ", ".join(f"<<{m},{n}>>" for m, n in shapes) + "}"
+        t0 = time.time()
+        g = lib.run_tlc_mc("GF2Gen", {"Shapes": shapes_tla, "Extra": extra_tla}, lib.workdir(PID, "gen"), invariants=INVARIANTS, timeout=6000)
+        if g.invariant_violated:
+            raise lib.MachineryError(f"the two definitions in GF2.tla disagree ({g.invariant_violated}): oracle error\n" + g.out[-1500:])
+        lib.require_ok(g, "GF2Gen")
+        cases = g.json_lines
+        n_expected = sum(2 ** (m * n) for m, n in shapes) + len(extra)
+        if len(cases) != n_expected:
+            raise lib.MachineryError(f"generator emitted {len(cases)} cases, expected {n_expected}")
+        cases.sort(key=lambda c: (c["m"] * c["n"], c["m"], json.dumps(c["A"])))
+        for c in cases:
+            if c["m"] == 0:
+                c["A"] = []
+        self.g_states, self.g_gen = self.g_states + g.distinct, self.g_gen + g.generated
+        self.wall["model_check_and_generate"] += time.time() - t0
+        return cases
+
+    def validate(self, traces, judge_n=None):
+        """Trace_GF2 on a list of traces -> list of (nfail, failing clauses) per trace; violations and evidence are recorded
+        for the first judge_n traces (default: all; the rest are controls)."""
+        out = []
+        judge_n = len(traces) if judge_n is None else judge_n
+        for lo in range(0, len(traces), CHUNK):
+            part = traces[lo:lo + CHUNK]
+            self.chunk_no += 1
+            wd = lib.workdir(PID, f"trace{self.chunk_no}")
+            (wd / "traces.json").write_text(json.dumps(part, separators=(",", ":")))
+            r = lib.run_tlc("Trace_GF2", lib.cfg(init="TInit", next_="TNext", constants={"NTRACES": len(part)}, invariants=["TypeOK"]),
+                            wd, env={"TRACE_FILE": str(wd / "traces.json")}, timeout=6000)
+            if r.invariant_violated:
+                raise lib.MachineryError("Trace_GF2 TypeOK violated (brute-force spaces malformed)\n" + r.out[-1500:])
+            lib.require_ok(r, "Trace_GF2")
+            (wd / "traces.json").unlink()
+            self.t_states, self.t_gen = self.t_states + r.distinct, self.t_gen + r.generated
+            self.wall["trace_validation"] += r.wall_s
+            verd = {t[1] - 1: t[2:] for t in r.tuples if t[0] == "V"}
+            fails = {}
+            for t in r.tuples:
+                if t[0] == "F":
+                    fails.setdefault(t[1] - 1, []).append((t[2] - 1, t[3]))
+            if len(verd) != len(part):
+                raise lib.MachineryError(f"verdicts not total: {len(verd)} of {len(part)}")
+            for i, t in enumerate(part):
+                fl = fails.get(i, [])
+                if verd[i][0] != len(fl):
+                    raise lib.MachineryError("failure lines and verdict disagree")
+                out.append((verd[i][0], [c for _, c in fl]))
+                if lo + i >= judge_n:
+                    continue
+                self.n_traces += 1
+                self.n_events += len(t["events"])
+                self.drift, self.ood, self.oodw = self.drift + verd[i][1], self.ood + verd[i][2], self.oodw + verd[i][3]
+                for l, clause in fl:
+                    e = t["events"][l]
+                    shown = e["exc"] if e["exc"] else e["val"] if e["op"] in ("rank", "indep") else e["out"]
+                    self.agg.add(clause, f"A={t['A']} ({t['m']}x{t['n']})" + (f" b={e['b']}" if e["op"] in ("solve", "indep") else "") + f" output={shown}"
+                                 + (f" (selected columns as rows) others={e['out2']}" if e["op"] == "basis" else "")
+                                 + (f" input={e['inp']}" if e["op"] == "kernel" else ""),
+                                 {"m": t["m"], "n": t["n"], "A": t["A"], "event": e})
+        return out
+
+    def replay_and_validate(self, cases, trace_only=None):
+        """spec -> code (REPLAY comparisons inside exercise) and code -> spec (trace validation), chunk by chunk.
+        trace_only: set of case indices whose traces are sent to TLC (default all); every case is replayed."""
+        for lo in range(0, len(cases), CHUNK):
+            t0 = time.time()
+            traces = []
+            for k, c in enumerate(cases[lo:lo + CHUNK]):
+                tr = exercise(c, self.kernel, self.agg, self.stats)
+                if trace_only is None or lo + k in trace_only:
+                    traces.append(tr)
+                self.n_cases += 1
+                self.nontriv += c["rank"] >= 2 and c["A"] != c["rref"]
+                if c["m"] == c["n"]:
+                    self.stats["square_regular" if c["rank"] == c["n"] else "square_singular"] += 1
+            self.wall["implementation"] += time.time() - t0
+            self.validate(traces)
+
+
 def run(tier, seed):
-    from collections import Counter
     rng = random.Random(seed)
-    kernel = _kernel_fn()
+    R = Run(_kernel_fn())
     shapes = [(m, n) for m in range(0, 4) for n in range(0, 5)]
     if tier == "quick":
         extra = random_matrices(rng, 120, 5, 6)
         big = random_matrices(rng, 150, 7, 9)
     else:
-        shapes += [(4, 4)]
-        extra = random_matrices(rng, 1500, 6, 8)
-        big = random_matrices(rng, 2000, 9, 11)
-    extra_tla = "{" + ", ".join(f"[m |-> {x['m']}, n |-> {x['n']}, A |-> {tla_mat(x['A'])}]" for x in extra) + "}"
-    shapes_tla = "{" + ", ".join(f"<<{m},{n}>>" for m, n in shapes) + "}"
-    wd = lib.workdir(PID, "gen")
-    t0 = time.time()
-    g = lib.run_tlc_mc("GF2Gen", {"Shapes": shapes_tla, "Extra": extra_tla}, wd, invariants=INVARIANTS, timeout=3000)
-    if g.invariant_violated:
-        raise lib.MachineryError(f"the two definitions in GF2.tla disagree ({g.invariant_violated}): oracle error\n" + g.out[-1500:])
-    lib.require_ok(g, "GF2Gen")
-    cases = g.json_lines
-    n_expected = sum(2 ** (m * n) for m, n in shapes) + len(extra)
-    if len(cases) != n_expected:
-        raise lib.MachineryError(f"generator emitted {len(cases)} cases, expected {n_expected}")
-    cases.sort(key=lambda c: (c["m"] * c["n"], c["m"], json.dumps(c["A"])))
-
-    t1 = time.time()
-    agg, stats = Agg(), Counter()
-    traces = []
-    nontriv = set()
-    for c in cases:
-        if c["m"] == 0:
-            c["A"] = []
-        traces.append(exercise(c, kernel, agg, stats))
-        if c["rank"] >= 2 and c["A"] != c["rref"]:
-            nontriv.add((c["m"], c["n"], json.dumps(c["A"])))
-        if c["m"] == c["n"]:
-            stats["square_regular" if c["rank"] == c["n"] else "square_singular"] += 1
+        extra = random_matrices(rng, 600, 6, 8)
+        big = random_matrices(rng, 1000, 8, 10)
+    cases = R.generate(shapes, extra)
+    # controls from the SPEC's expected values: accepted as they are, rejected when corrupted
+    pos, neg = controls(cases)
+    samples = []
+    for want in ((3, 4, 3), (3, 3, 2)):
+        c = next(c for c in cases if (c["m"], c["n"], c["rank"]) == want and c["A"] != c["rref"] and c["A"][0] != c["rref"][0])
+        s5 = c["sols"][5]
+        samples.append({"A": ms(c["A"]), "rref": ms(c["rref"]), "rank": c["rank"], "pivot_columns": str(c["piv"]), "kernel_basis": ms(c["kern"]),
+                        "rhs": ms([s5["b"]]), "solvable": s5["ok"], "x": ms([s5["x"]]) if s5["ok"] else None, "solutions": s5["ns"],
+                        "unsolvable_rhs": ms([s["b"] for s in c["sols"] if not s["ok"]])})
+    R.replay_and_validate(cases)
+    shapes_done, n44 = list(shapes), 0
+    if tier != "quick":
+        # every 4x4 matrix with every right-hand side, in a run of its own: all of them model-checked and replayed,
+        # a seeded sample of them trace-validated
+        del cases
+        c44 = R.generate([(4, 4)], [])
+        n44 = 12000
+        R.replay_and_validate(c44, trace_only=set(rng.sample(range(len(c44)), n44)))
+        del c44
+        shapes_done.append((4, 4))
     # larger seeded matrices: trace validation only (brute force over 2^n / 2^m vectors inside TLC)
+    t0 = time.time()
+    traces = []
     for x in big:
         m = x["m"]
         picks = {tuple(rng.randint(0, 1) for _ in range(m)) for _ in range(6)} | {tuple([0] * m)}
         A = np.array(x["A"])
         picks |= {tuple(int(v) for v in (A @ np.array([rng.randint(0, 1) for _ in range(x["n"])])) % 2) for _ in range(3)}
-        traces.append(exercise(dict(x, rhs=[list(p) for p in sorted(picks)]), kernel, agg, stats, expect=False))
-    n_real = len(traces)
-    pos, neg = controls(cases)
-    traces += [t for _, t in pos] + [t for _, t in neg]
-
-    t2 = time.time()
-    # trace validation in chunks (one JSON file / one TLC run per CHUNK traces keeps the deserialised file small)
-    verd, fails, t_states, t_gen, t_wall = {}, {}, 0, 0, 0.0
-    for ci, lo in enumerate(range(0, len(traces), CHUNK)):
-        part = traces[lo:lo + CHUNK]
-        wd2 = lib.workdir(PID, f"trace{ci}")
-        (wd2 / "traces.json").write_text(json.dumps(part, separators=(",", ":")))
-        r = lib.run_tlc("Trace_GF2", lib.cfg(init="TInit", next_="TNext", constants={"NTRACES": len(part)}, invariants=["TypeOK"]),
-                        wd2, env={"TRACE_FILE": str(wd2 / "traces.json")}, timeout=3000)
-        if r.invariant_violated:
-            raise lib.MachineryError("Trace_GF2 TypeOK violated (brute-force spaces malformed)\n" + r.out[-1500:])
-        lib.require_ok(r, "Trace_GF2")
-        (wd2 / "traces.json").unlink()
-        t_states, t_gen, t_wall = t_states + r.distinct, t_gen + r.generated, t_wall + r.wall_s
-        for t in r.tuples:
-            if t[0] == "V":
-                verd[lo + t[1] - 1] = t[2:]
-            elif t[0] == "F":
-                fails.setdefault(lo + t[1] - 1, []).append((t[2] - 1, t[3]))
-    if len(verd) != len(traces):
-        raise lib.MachineryError(f"verdicts not total: {len(verd)} of {len(traces)}")
-    nneg = 0
-    for k, (name, _) in enumerate(pos):
-        if verd[n_real + k][0] != 0:
-            raise lib.MachineryError(f"positive control '{name}' (the spec's own expected value) was rejected by Trace_GF2: {fails.get(n_real + k)}")
-    for k, (name, _) in enumerate(neg):
-        i = n_real + len(pos) + k
-        if verd[i][0] >= 1 and fails.get(i):
-            nneg += 1
-        else:
+        traces.append(exercise(dict(x, rhs=[list(p) for p in sorted(picks)]), R.kernel, R.agg, R.stats, expect=False))
+    R.wall["implementation"] += time.time() - t0
+    cv = R.validate(traces + [t for _, t in pos] + [t for _, t in neg], judge_n=len(traces))[len(traces):]
+    for (name, _), (nf, cl) in zip(pos, cv[:len(pos)]):
+        if nf != 0:
+            raise lib.MachineryError(f"positive control '{name}' (the spec's own expected value) was rejected by Trace_GF2: {cl}")
+    for (name, _), (nf, cl) in zip(neg, cv[len(pos):]):
+        if nf == 0:
             raise lib.MachineryError(f"negative control '{name}' was accepted by Trace_GF2")
-    drift = ood = oodw = n_events = 0
-    for i in range(n_real):
-        t = traces[i]
-        n_events += len(t["events"])
-        drift += verd[i][1]
-        ood += verd[i][2]
-        oodw += verd[i][3]
-        if verd[i][0] != len(fails.get(i, [])):
-            raise lib.MachineryError("failure lines and verdict disagree")
-        for l, clause in fails.get(i, []):
-            e = t["events"][l]
-            shown = e["exc"] if e["exc"] else e["val"] if e["op"] in ("rank", "indep") else e["out"]
-            agg.add(clause, f"A={t['A']} ({t['m']}x{t['n']})" + (f" b={e['b']}" if e["op"] in ("solve", "indep") else "") + f" output={shown}"
-                    + (f" (selected columns as rows) others={e['out2']}" if e["op"] == "basis" else "") + (f" input={e['inp']}" if e["op"] == "kernel" else ""),
-                    {"m": t["m"], "n": t["n"], "A": t["A"], "event": e})
-    if stats["square_regular"] < 100 or stats["indep_true"] < 100 or not nontriv:
+    stats = R.stats
+    if stats["square_regular"] < 100 or stats["indep_true"] < 100 or R.nontriv < 1000:
         raise lib.MachineryError(f"vacuous run: {dict(stats)}")
-    samples = []
-    for c in cases:
-        if c["m"] == 3 and c["n"] == 4 and c["rank"] == 3 and c["A"] != c["rref"] and len(samples) < 2:
-            samples.append({"A": ms(c["A"]), "rref": ms(c["rref"]), "rank": c["rank"], "pivots": str(c["piv"]),
-                            "rhs": ms([c["sols"][5]["b"]]), "solvable": c["sols"][5]["ok"], "x": ms([c["sols"][5]["x"]]), "solutions": c["sols"][5]["ns"]})
-        if c["m"] == 3 and c["n"] == 3 and c["rank"] == 2 and c["A"] != c["rref"] and len(samples) in (2, 3):
-            samples.append({"A": ms(c["A"]), "rref": ms(c["rref"]), "rank": c["rank"],
-                            "unsolvable_rhs": ms([s["b"] for s in c["sols"] if not s["ok"]])})
-    cov = {"states": g.distinct + t_states, "transitions": g.generated + t_gen,
-           "traces_validated_against_impl": n_real, "evaluations": n_events,
-           "distinct_nontrivial": len(nontriv),
+    cov = {"states": R.g_states + R.t_states, "transitions": R.g_gen + R.t_gen,
+           "traces_validated_against_impl": R.n_traces, "evaluations": R.n_events,
+           "distinct_nontrivial": R.nontriv,
            "rule": "every binary matrix of every shape 0..3 x 0..4" + (" and 4x4" if tier != "quick" else "") +
-                   " with every right-hand side, plus seeded larger matrices; non-trivial = distinct enumerated matrix of "
-                   "rank >= 2 that is not already in reduced row echelon form",
+                   " with every right-hand side, plus seeded larger matrices; evaluations = implementation calls validated by TLC; "
+                   "non-trivial = distinct enumerated matrix of rank >= 2 that is not already in reduced row echelon form",
            "samples": samples, "exhaustive": True,
-           "model": {"module": "GF2 / GF2Gen", "invariants": INVARIANTS, "states": g.distinct, "matrices": len(cases),
-                     "exhaustive_shapes": [list(s) for s in shapes], "seeded_larger_matrices_in_model": len(extra)},
-           "matrices_replayed": len(cases), "larger_matrices_trace_only": len(big),
-           "trace_events": n_events, "trace_states": t_states,
+           "model": {"module": "GF2 / GF2Gen", "invariants": INVARIANTS, "states": R.g_states, "matrices": R.n_cases,
+                     "exhaustive_shapes": [f"{m}x{n}" for m, n in shapes_done], "seeded_larger_matrices_in_model": len(extra)},
+           "matrices_replayed": R.n_cases, "larger_matrices_trace_only": len(big),
+           "trace_validated_4x4_sample": n44,
+           "trace_events": R.n_events, "trace_states": R.t_states,
            "square_regular": stats["square_regular"], "square_singular": stats["square_singular"],
            "solve_returned": stats["solve_returned"],
            "solve_raised": {k.split(":", 1)[1]: v for k, v in stats.items() if k.startswith("solve_raised:")},
            "indep_in_domain": stats["indep_in_domain"], "indep_true": stats["indep_true"], "indep_false": stats["indep_false"],
-           "indep_out_of_documented_domain": ood,
-           "indep_out_of_domain_answer_differs_from_reference": oodw, "kernel_calls": stats["kernel_calls"],
-           "model_drift": drift, "input_mutated": stats["input_mutated"], "rref_inplace_differs": stats["rref_inplace_differs"],
+           "indep_out_of_documented_domain": R.ood,
+           "indep_out_of_domain_answer_differs_from_reference": R.oodw, "kernel_calls": stats["kernel_calls"],
+           "model_drift": R.drift, "input_mutated": stats["input_mutated"], "rref_inplace_differs": stats["rref_inplace_differs"],
            "rref_inplace_not_same_object": stats["rref_inplace_not_same_object"],
-           "phase_wall_s": {"model_check_and_generate": round(t1 - t0, 1), "implementation": round(t2 - t1, 1), "trace_validation": round(t_wall, 1)},
-           "negative_controls_rejected": nneg, "negative_controls": [n for n, _ in neg],
+           "phase_wall_s": {k: round(v, 1) for k, v in R.wall.items()},
+           "negative_controls_rejected": len(neg), "negative_controls": [n for n, _ in neg],
            "positive_controls_accepted": len(pos)}
-    return CheckResult(coverage=cov, violations=agg.violations(), assumptions=[
+    return CheckResult(coverage=cov, violations=R.agg.violations(), assumptions=[
         "binary_solve_linear_system is exercised on square matrices only (documented domain); on a singular matrix raising "
         "or returning a vector that solves the system are both accepted",
         "binary_is_independent is decided only when the basis columns are independent or spanning (documented precondition: "
